@@ -129,6 +129,15 @@ def update (cfg : Cfg) (env : Env) (logID : Bytes) (old : Nat) (nextRaw : Bytes)
                                  ctr := { ctr with invalidConsistency := 1 } }
             | .accepted => signAndSet cfg env nextNote ctr
 
+/-- storage calls one `Update` makes, in order: W = WriteOps, G = GetLatest, S = Set, C = Close -/
+inductive Call | W | G | S | C
+deriving DecidableEq, Repr
+
+def callScript (o : Out) : List Call :=
+  if o.err = .unknownLog ∨ o.err = .noValidSig then []
+  else if !o.opened then [.W]
+  else [.W, .G] ++ (if o.set.isSome then [.S] else []) ++ [.C]
+
 /-! ### sequential witness over an abstract store (association list, latest binding first) -/
 
 abbrev Store := List (Bytes × Bytes)
